@@ -36,7 +36,26 @@ Inductive case :=
 (* client level, one backend: handler implementation, ..., observed reply and raw body *)
 | CSingle (i : impl) (details code : cfgval) (r : reply) (decoded : option obj) (o : cobs) (raw : string)
 (* client level, several backends *)
-| CMulti (i : impl) (bs : list (cfgval * cfgval * reply * option obj)) (o : cobs) (raw : string).
+| CMulti (i : impl) (bs : list (cfgval * cfgval * reply * option obj)) (o : cobs) (raw : string)
+(* proxy level, the backend's RAW extra_config map *)
+| CProxyRaw (extra : obj) (r : reply) (decoded : option obj) (o : pout)
+(* an endpoint built by the default factory: router, texts of the c.Error entries recorded by
+   earlier gin middleware, raw endpoint extra_config, backends b0 :: rest (raw extra_config,
+   reply, independent decoding), observed reply and raw body *)
+| CEndpoint (rt : router) (prior : list string) (epx : obj)
+            (b0 : obj * reply * option obj) (rest : list (obj * reply * option obj))
+            (o : cobs) (raw : string).
+
+(* model reply against the observation.  A raw (non JSON) model body is compared with the raw
+   bytes the client got (the harness classifies by content type, which an error body written
+   by return_error_msg borrows from the backend); lax: its text is not compared (decoder's
+   own message; error texts joined in arrival order). *)
+Definition cobs_match (lax : bool) (m o : cobs) (raw : string) : bool :=
+  (c_status m =? c_status o)%Z && str_eqb (c_completed m) (c_completed o) &&
+  match c_body m with
+  | BJson x => match c_body o with BJson y => json_eqb x y | BRaw _ => false end
+  | BRaw s => lax || str_eqb s raw
+  end.
 
 Definition proxy_spec_b (m : mode) (r : reply) (decoded : option obj) (o : pout) : bool :=
   if ok_status (r_code r) then
@@ -65,6 +84,18 @@ Definition check_case (c : case) : bool * bool :=
   | CMulti i bs o raw =>
       let ms := map (fun b => let '(dt, cd, r, d) := b in (status_mode dt cd, r, d)) bs in
       (cobs_eqb_lax (client_multi i ms) o, spec_multi_b ms o raw)
+  | CProxyRaw extra r d o =>
+      let m := status_mode_raw extra in
+      (pout_eqb (http_proxy_outcome m r d) o, proxy_spec_b m r d o)
+  | CEndpoint rt prior epx b0 rest o raw =>
+      let b0' := backend_of_raw b0 in
+      let rest' := map backend_of_raw rest in
+      let lax := negb (Nat.eqb (List.length rest) 0) ||
+                 existsb (fun b : backend => let '(_, r, d) := b in
+                            ok_status (r_code r) && match d with None => true | Some _ => false end)
+                         (b0' :: rest') in
+      (cobs_match lax (client_endpoint rt prior epx b0' rest') o raw,
+       spec_endpoint_b rt epx b0' rest' o raw)
   end.
 
 Fixpoint failing (i : nat) (cs : list case) : list verdict :=
